@@ -210,7 +210,10 @@ class UnownedRandomness(Exception):
     pass
 
 
-_TRAPPED = ['random', 'rand', 'random_sample', 'ranf', 'sample', 'permutation', 'choice', 'randint', 'random_integers',
+# Owned seams: uniform (and its legacy aliases random / random_sample / ranf / sample / rand: the same source of U[0,1)
+# numbers), shuffle, permutation and choice (the legacy ways of rearranging / selecting the elements of a vector).
+_OWNED = ['uniform', 'shuffle', 'random', 'random_sample', 'ranf', 'sample', 'rand', 'permutation', 'choice']
+_TRAPPED = ['randint', 'random_integers',
             'normal', 'standard_normal', 'randn', 'default_rng', 'seed', 'beta', 'triangular', 'bytes']
 
 
@@ -232,7 +235,43 @@ def realise_perm(spec, n):
         if len(spec[1]) == n:
             return list(spec[1]), True
         return list(range(n)), False
+    if kind in ('map', 'const', 'dup'):
+        return list(range(n)), False        # not a rearrangement: no legal answer of shuffle / permutation
     raise KeyError(kind)
+
+
+def realise_selection(spec, n, m):
+    """Answer of a selection WITH replacement of m elements out of n (numpy.random.choice(..., replace=True)): any
+    tuple of m indices is a legal answer.  The rearrangement answers (prefix of the permutation, cyclically continued)
+    plus ('map', [i_0..]) an explicit tuple, ('const', k) the same element m times, ('dup', k) the identity except
+    that position k+1 repeats element k.  Returns (indices, applicable)."""
+    kind = spec[0]
+    if n <= 0:
+        return [], False
+    if kind == 'map':
+        if len(spec[1]) == m and all(0 <= i < n for i in spec[1]):
+            return list(spec[1]), True
+        return [i % n for i in range(m)], False
+    if kind == 'const':
+        return [spec[1] % n] * m, True
+    if kind == 'dup':
+        idx = [i % n for i in range(m)]
+        if m >= 2:
+            k = spec[1] % (m - 1)
+            idx[k + 1] = idx[k]
+        return idx, True
+    p, ok = realise_perm(spec, n)
+    return [p[i % n] for i in range(m)], ok
+
+
+def noninjective_alphabet(n):
+    """Answers of a selection with replacement of n out of n that are NOT rearrangements: all of them for n <= 3
+    (n^n - n!), else a family (one element n times: first / last; one repetition at the start / middle / end)."""
+    if n <= 1:
+        return [], True
+    if n <= 3:
+        return [('map', list(t)) for t in itertools.product(range(n), repeat=n) if len(set(t)) < n], True
+    return [('const', 0), ('const', n - 1), ('dup', 0), ('dup', n // 2), ('dup', n - 2)], False
 
 
 class Tape:
@@ -244,6 +283,7 @@ class Tape:
         self.u = []          # every uniform number handed out, in order
         self.calls = 0
         self.size_mismatch = 0
+        self.seams = set()   # which kinds of RNG answers the code under test consumed
 
     def uniform(self, low=0.0, high=1.0, size=None):
         import numpy as np
@@ -265,7 +305,53 @@ class Tape:
         if not ok:
             self.size_mismatch += 1
         self.log.append(('shuffle', n))
+        self.seams.add('rearrangement')
         x[:] = x[p]
+
+    # legacy aliases of the U[0,1) source
+    def random(self, size=None):
+        return self.uniform(size=size)
+
+    def rand(self, *dims):
+        return self.uniform(size=dims if dims else None)
+
+    def permutation(self, x):
+        """numpy.random.permutation: a rearranged COPY (of arange(x) for an integer)."""
+        import numpy as np
+        a = np.arange(x) if isinstance(x, (int, np.integer)) else np.array(x)
+        n = len(a)
+        p, ok = realise_perm(self.perm, n)
+        if not ok:
+            self.size_mismatch += 1
+        self.log.append(('permutation', n))
+        self.seams.add('rearrangement')
+        return a[p]
+
+    def choice(self, a, size=None, replace=True, p=None):
+        """numpy.random.choice.  Without replacement the answer is the first m elements of a rearrangement; with
+        replacement ANY tuple of m indices is a legal answer of the RNG (the seam 'selection-with-replacement' is
+        recorded, so that the caller of the run enumerates the answers that are not rearrangements as well)."""
+        import numpy as np
+        pop = np.arange(a) if isinstance(a, (int, np.integer)) else np.asarray(a)
+        n = len(pop)
+        m = 1 if size is None else int(np.prod(size))
+        if replace:
+            idx, ok = realise_selection(self.perm, n, m)
+            if m >= 2:
+                self.seams.add('selection-with-replacement')
+        else:
+            if m > n:
+                raise ValueError('Cannot take a larger sample than population when replace is False')
+            q, ok = realise_perm(self.perm, n)
+            idx = q[:m]
+            self.seams.add('rearrangement')
+        if not ok:
+            self.size_mismatch += 1
+        self.log.append(('choice', n, m, bool(replace)))
+        out = pop[idx]
+        if size is None:
+            return out[0]
+        return out.reshape(size)
 
 
 class owned:
@@ -277,11 +363,17 @@ class owned:
     def __enter__(self):
         import numpy.random as npr
         self.saved = {}
-        for name in ['uniform', 'shuffle'] + _TRAPPED:
+        for name in _OWNED + _TRAPPED:
             if hasattr(npr, name):
                 self.saved[name] = getattr(npr, name)
         npr.uniform = self.tape.uniform
         npr.shuffle = self.tape.shuffle
+        npr.permutation = self.tape.permutation
+        npr.choice = self.tape.choice
+        npr.rand = self.tape.rand
+        for name in ('random', 'random_sample', 'ranf', 'sample'):
+            if name in self.saved:
+                setattr(npr, name, self.tape.random)
 
         def trap(name):
             def f(*a, **k):
@@ -499,6 +591,7 @@ def check_entry_case(rec, cat, name, n, r, tid, perm, cache, via_db=False, hist=
         pre, where = 'C11|history|', ' ' + hist['where']
         oc = ('hist', name)
     out, tape, err = call_gen(gen, n, r, tid, perm)
+    cache.setdefault(('seams', name), set()).update(tape.seams)
     nt = key if n * r >= 2 else None
     if err is not None:
         rec.case(nt, (key, 'raised', type(err).__name__), outcome=(oc, 'raised'))
@@ -717,6 +810,15 @@ def _part_gen(task, rec, only=None):
                 if name in ('UNIFORM_HALTON3', 'NORMAL_MLHS_ANTI', 'UNIFORMSYM_MLHS') and (n, r) == (2, 2):
                     rec.sample(dict(part='gen', type=name, N=n, R=r, tape=tid, advertised={k: adv[k] for k in
                                ('normal', 'anti', 'halton', 'mlhs', 'base', 'skip', 'support')}, output=vals))
+        # the entry consumed a selection WITH replacement (numpy.random.choice): every tuple of indices is a legal
+        # answer of the RNG, so the answers that are not rearrangements are enumerated as well (no case on a library
+        # that only shuffles)
+        if not only and sh_i == 0 and 'selection-with-replacement' in cache.get(('seams', name), ()):
+            n_g = n * (r // 2 if adv['anti'] else r)
+            extra, _ = noninjective_alphabet(n_g)
+            for perm in extra:
+                rec.count('selection_with_replacement_answers')
+                check_entry_case(rec, cat, name, n, r, TAPES[0], tuple(perm), cache)
     if only or sh_i != 0:
         return
     # ---- entries advertising different bases must yield different sequences
@@ -786,7 +888,13 @@ def _part_hd(task, rec, only=None):
                 perms, _ = perm_alphabet(n * r)
                 if n * r > 5:
                     perms = perms[:2] + perms[2::max(1, (len(perms) - 2) // 6)]
-                for shuffled, perm in [(False, ('id',))] + [(True, p) for p in perms]:
+                todo = [(False, ('id',))] + [(True, p) for p in perms]
+                extended = False
+                if only and only.get('perm', ['id'])[0] in ('map', 'const', 'dup'):      # replay of such an answer
+                    extended = True
+                    todo += [(True, tuple(q)) for q in noninjective_alphabet(n * r)[0]]
+                while todo:
+                    shuffled, perm = todo.pop(0)
                     case = dict(part='hd', base=base, skip=skip, N=n, R=r, symmetric=symmetric, shuffled=shuffled,
                                 perm=list(perm))
                     if only and {k: only.get(k) for k in case} != case:
@@ -807,11 +915,31 @@ def _part_hd(task, rec, only=None):
                                       f'shuffled={shuffled}) gave {out!r:.200}', case, expected=[n, r],
                                       observed=repr(out)[:200])
                         continue
+                    if shuffled and 'selection-with-replacement' in tape.seams and not extended:
+                        # the series was 'shuffled' by a selection WITH replacement: every tuple of indices is a legal
+                        # answer of the RNG; enumerate those that are not rearrangements too
+                        extended = True
+                        todo += [(True, tuple(q)) for q in noninjective_alphabet(n * r)[0]]
+                    got = flat(out)
+                    if perm[0] in ('map', 'const', 'dup'):
+                        # whatever the RNG answers, a shuffled series is a rearrangement of the window
+                        exp = sorted((2.0 * v - 1.0) if symmetric else v for v in ref)
+                        ok = all_close(sorted(got), exp)
+                        rec.count('selection_with_replacement_answers')
+                        rec.case(key, (key, digest(out)), outcome=('hd', symmetric, shuffled, 'selection', ok))
+                        if not ok:
+                            rec.violation(
+                                f'C11|halton-generator-shuffled-not-a-rearrangement|base={base},symmetric={symmetric}',
+                                f'get_halton_draws({n}, {r}, symmetric={symmetric}, base={base}, skip={skip}, '
+                                f'shuffled=True) draws the shuffled series by a selection with replacement '
+                                f'(numpy.random.choice); with the RNG answer {perm} the result is not a rearrangement '
+                                f'of the radical-inverse window {skip + 1}..{skip + n * r}: elements are missing / '
+                                f'repeated', case, expected=exp[:6], observed=sorted(got)[:6])
+                        continue
                     p, _ = realise_perm(perm, n * r)
                     exp = [ref[i] for i in p] if shuffled else list(ref)
                     if symmetric:
                         exp = [2.0 * v - 1.0 for v in exp]
-                    got = flat(out)
                     ok = all_close(got, exp)
                     rec.case(key, (key, digest(out)), outcome=('hd', symmetric, shuffled, ok))
                     if not ok:
